@@ -182,12 +182,14 @@ def suite_traversal(ctx, res, n):
         res.sample({"suite": "traversal", "tree": ops[-1]["tree"], "impl": real[-1]})
 
 
-def suite_fonts(ctx, res, n):
-    for idx, case in enumerate(fontgen.gen_cases(ctx.rng, n, formats=FORMATS0 + ["glyf"], gradients=False, special_colors=False)):
+def suite_fonts(ctx, res, n, n_origin=0):
+    cases = list(fontgen.gen_cases(ctx.rng, n, formats=FORMATS0 + ["glyf"], gradients=False, special_colors=False))
+    # shapes recurring under a near-identity linear map about the font origin (reuse transform without translation)
+    cases += [fontgen.make_origin_anchored_case(ctx.rng.getrandbits(32), fmt=(FORMATS0 + ["glyf"])[i % 4]) for i in range(n_origin)]
+    for idx, case in enumerate(cases):
         # half of the cases are flat (the image claim), half have groups
-        flat = idx % 2 == 0
-        if flat:
-            import random
+        flat = idx % 2 == 0 or case.get("family") == "origin-anchored"
+        if flat and "family" not in case:
             case = fontgen.make_case(case["seed"], case["fmt"], gradients=False, groups=False, special_colors=False)
         out = fontgen.build(case)
         res.count(key=("font", case["id"], flat), nontrivial=True)
@@ -210,12 +212,12 @@ def run(ctx, res):
                 "(half flat, half with opacity groups; shapes recurring under isometries/scales so transformed components appear) built as "
                 "glyf, glyf_colr_0, cff_colr_0, cff2_colr_0; non-trivial = >= 2 PaintGlyph (trees), every font")
     suite_traversal(ctx, res, ctx.budget(400, 8000))
-    suite_fonts(ctx, res, ctx.budget(40, 1000))
+    suite_fonts(ctx, res, ctx.budget(40, 1000), n_origin=ctx.budget(16, 300))
 
 
 def search(ctx, res, broken):
     suite_traversal(ctx, res, 5000)
-    suite_fonts(ctx, res, 160)
+    suite_fonts(ctx, res, 160, n_origin=80)
 
 
 def replay(ctx, res, payload):
